@@ -353,16 +353,18 @@ sys.path.insert(0, sys.argv[1]); sys.path.insert(1, sys.argv[2])
 from vt.core import dec
 from vt.props import C06
 d = dec(json.load(open(sys.argv[3])))
-B = C06.run_batch(d['cfg'], d['kw'], d['g'], d['a'], d['m'], d['seed'])
-print(np.asarray(B, float).tobytes().hex())
+try:
+    B = C06.run_batch(d['cfg'], d['kw'], d['g'], d['a'], d['m'], d['seed'])
+    print(np.asarray(B, float).tobytes().hex())
+except Exception as e:
+    print("EXC:" + type(e).__name__)
 """
 
 
 def check_process(case, ctx):
     p = case.p
     here = call(run_batch, p["cfg"], dict(p["kw"]), p["g"], p["a"], p["m"], int(p["seed"]))
-    if not ctx.returned(here, route="fresh-process"):
-        return
+    # (a run that raises - UKF's LinAlgError on valid histories is C03's finding - must raise the same in a fresh process: equal behaviour is what is judged here)
     from ..core import VERIF
     work = os.path.join(VERIF, ".work")
     os.makedirs(work, exist_ok=True)
@@ -375,6 +377,12 @@ def check_process(case, ctx):
     finally:
         os.remove(fn)
     if not ctx.ok("fresh interpreter ran", r.returncode == 0, {"stderr": r.stderr[-400:]}, route="fresh-process"):
+        return
+    last = r.stdout.strip().splitlines()[-1]
+    if not here.ok or last.startswith("EXC:"):
+        ctx.ok("a run that raises here raises the same exception in a fresh process (and the other way round)", (not here.ok) and last == "EXC:" + here.exc_name,
+               {"here": here.exc_name if not here.ok else "returned", "fresh_process": last[:60]}, route="fresh-process")
+        ctx.note("run raised %s in both processes (validity is C03's business)" % (here.exc_name if not here.ok else last))
         return
     other = np.frombuffer(bytes.fromhex(r.stdout.strip().splitlines()[-1]), dtype=float).reshape(np.asarray(here.value).shape)
     ctx.ok("a fresh process (different hash seed) gives bit-identical output", np.array_equal(other, np.asarray(here.value, float), equal_nan=True), route="fresh-process")
